@@ -67,11 +67,12 @@ Fixpoint first_rule (low : string) (rs : list rule) : option rule :=
   | r :: t => if rule_fires low r then Some r else first_rule low t
   end.
 
-(* _map_query_error: the `if` chain in source order *)
+(* _map_query_error: the `if` chain in source order; the last rule is the unconditional fallback (RunTimeError 2-1-1-1) *)
 Definition query_rules : list rule := [
   mkRule [["vtl error 2-1-19-20"]] KRuntime "2-1-19-20";
   mkRule [["vtl error 2-1-19-19"]] KRuntime "2-1-19-19";
   mkRule [["vtl error 2-1-19-16"]] KRuntime "2-1-19-16";
+  mkRule [["vtl error 2-1-19-21"]] KRuntime "2-1-19-21";
   mkRule [["vtl error 2-1-19-1"]] KRuntime "2-1-19-1";
   mkRule [["cannot cast non-daily timeperiod to date"]] KRuntime "2-1-5-1";
   mkRule [["cannot cast timeinterval to date"]] KRuntime "2-1-5-1";
@@ -82,11 +83,23 @@ Definition query_rules : list rule := [
   mkRule [["division by zero"; "divide by zero"]] KRuntime "2-1-3-1";
   mkRule [["vtl error 2-1-3-1"]] KRuntime "2-1-3-1";
   mkRule [["logarithm of zero"; "logarithm of negative"]] KRuntime "2-1-15-8";
-  mkRule [["cannot take logarithm of a negative number"]] KRuntime "2-1-15-3"
+  mkRule [["cannot take logarithm of a negative number"]] KRuntime "2-1-15-3";
+  mkRule [] KRuntime "2-1-1-1"
 ].
 
 Definition map_query (msg : string) : mres :=
   match first_rule (lower msg) query_rules with
+  | Some r => Mapped (r_kind r) (r_code r)
+  | None => Unmapped
+  end.
+
+(* REGRESSION WITNESS ONLY — _map_query_error BEFORE the fix (commit f47d60e): no rule for 2-1-19-21, no fallback: the
+   original duckdb error was returned and re-raised *)
+Definition query_rules_before_fix : list rule :=
+  filter (fun r => negb (String.eqb (r_code r) "2-1-19-21") && negb (String.eqb (r_code r) "2-1-1-1")) query_rules.
+
+Definition map_query_before_fix (msg : string) : mres :=
+  match first_rule (lower msg) query_rules_before_fix with
   | Some r => Mapped (r_kind r) (r_code r)
   | None => Unmapped
   end.
@@ -117,15 +130,14 @@ Definition is_vtl (e : exn) : bool := match e with VTL _ _ => true | _ => false 
 
 Inductive mapper :=
 | NoMap                 (* no handler: whatever is raised propagates *)
-| MapQuery              (* except duckdb.Error: m = _map_query_error(e); raise m if m is not e else re-raise *)
+| MapQuery              (* except duckdb.Error as e: raise _map_query_error(e) from e   (always a VTL error) *)
 | MapLoad               (* except duckdb.Error: raise map_duckdb_error(e) *)
 | MapNormalize          (* except duckdb.Error: raise DataLoadError("0-3-1-6", ...) *)
-| MapQueryTotal.        (* SPEC only: _map_query_error, and RunTimeError 2-1-1-1 ("DuckDB runtime error during query
-                           execution") for everything it has no rule for *)
+| MapQueryBeforeFix.    (* REGRESSION WITNESS ONLY: m = old _map_query_error(e); raise m if m is not e else re-raise e *)
 
 Definition mapper_eqb (a b : mapper) : bool :=
   match a, b with
-  | NoMap, NoMap | MapQuery, MapQuery | MapLoad, MapLoad | MapNormalize, MapNormalize | MapQueryTotal, MapQueryTotal => true
+  | NoMap, NoMap | MapQuery, MapQuery | MapLoad, MapLoad | MapNormalize, MapNormalize | MapQueryBeforeFix, MapQueryBeforeFix => true
   | _, _ => false
   end.
 
@@ -137,7 +149,7 @@ Definition apply_mapper (m : mapper) (e : exn) : exn :=
       | MapQuery => match map_query msg with Mapped k c => VTL k c | _ => e end
       | MapLoad => match map_load msg with Mapped k c => VTL k c | _ => e end
       | MapNormalize => VTL KDataLoad "0-3-1-6"
-      | MapQueryTotal => match map_query msg with Mapped k c => VTL k c | _ => VTL KRuntime "2-1-1-1" end
+      | MapQueryBeforeFix => match map_query_before_fix msg with Mapped k c => VTL k c | _ => e end
       end
   | _ => e     (* `except duckdb.Error` does not catch VTL exceptions or other Python errors *)
   end.
@@ -168,12 +180,23 @@ Definition all_stages : list stage :=
   [STranspile; SInitMacros; SLoadCreate; SLoadInsert; SLoadNormalize; SLoadValidate; SExec; SFetchRepr; SFetchSelect;
    SSave; SDrop; SPostFormat].
 
-(* FAITHFUL: what the code does today (only the statement execution and the insert/normalise steps of loading are wrapped) *)
+(* FAITHFUL: what the code does today: statement execution and the whole of fetch_result (representation, select, save) go
+   through _map_query_error; the insert / normalise steps of loading have their own handlers; CREATE TABLE of the loader, the
+   load validation queries, macro installation and the DROPs of cleanup_scheduled_datasets have none *)
 Definition stage_mapper_impl (s : stage) : mapper :=
   match s with
   | SLoadInsert => MapLoad
   | SLoadNormalize => MapNormalize
-  | SExec => MapQuery
+  | SExec | SFetchRepr | SFetchSelect | SSave => MapQuery
+  | _ => NoMap
+  end.
+
+(* REGRESSION WITNESS ONLY — the handlers BEFORE the fix: only the statement execution (partial mapper) and insert/normalise *)
+Definition stage_mapper_before_fix (s : stage) : mapper :=
+  match s with
+  | SLoadInsert => MapLoad
+  | SLoadNormalize => MapNormalize
+  | SExec => MapQueryBeforeFix
   | _ => NoMap
   end.
 
@@ -183,7 +206,7 @@ Definition stage_mapper_spec (s : stage) : mapper :=
   | STranspile | SPostFormat => NoMap
   | SLoadCreate | SLoadInsert | SLoadValidate => MapLoad
   | SLoadNormalize => MapNormalize
-  | SInitMacros | SExec | SFetchRepr | SFetchSelect | SSave | SDrop => MapQueryTotal
+  | SInitMacros | SExec | SFetchRepr | SFetchSelect | SSave | SDrop => MapQuery
   end.
 
 (* ---------------------------------------------------------------- the step language *)
